@@ -312,6 +312,8 @@ class UpgradedParameter(_util.funcsigs.Parameter):
 def _upgrade_parameters_with_warning(parameters, stacklevel=1):
     if parameters is None:
         return None
+    # any iterable will do, as for inspect.Signature: it is looked at twice
+    parameters = list(parameters)
     if all(isinstance(param, UpgradedParameter) for param in parameters):
         return parameters
     else:
